@@ -467,6 +467,25 @@ Proof.
   cbn [forallb]. rewrite (IH Hr), is_escape_spec. lia.
 Qed.
 
+(* ===== the same verdicts through a reader ===== *)
+Theorem slice_err_io : forall cf s c i,
+  parse_str (mkEnv RSlice TEof cf) s = Err c i -> parse_str (mkEnv RIo TEof cf) s = Err c i.
+Proof.
+  intros cf s c i H. pose proof (parse_str_io_slice cf s) as Heq. rewrite H in Heq. cbn [drop_flag] in Heq.
+  destruct (parse_str (mkEnv RIo TEof cf) s) as [[[out bw] s1]|c' i'| |]; cbn [drop_flag] in Heq;
+    try discriminate Heq. injection Heq as -> ->. reflexivity.
+Qed.
+
+Theorem slice_ok_io : forall cf s b bw s1,
+  parse_str (mkEnv RSlice TEof cf) s = Ok (b, bw, s1) -> parse_str (mkEnv RIo TEof cf) s = Ok (b, false, s1).
+Proof.
+  intros cf s b bw s1 H. pose proof (parse_str_io_slice cf s) as Heq. rewrite H in Heq. cbn [drop_flag] in Heq.
+  unfold parse_str in Heq |- *. cbn [rk] in Heq |- *.
+  destruct (io_str_loop _ _ true _) as [[out s2]|c i| |]; cbn [bind drop_flag] in Heq |- *; try discriminate Heq.
+  destruct (utf8_valid out); cbn [drop_flag] in Heq; [|discriminate Heq].
+  injection Heq as -> ->. reflexivity.
+Qed.
+
 Print Assumptions slice_loop_eq.
 Print Assumptions loop_prefix.
 Print Assumptions reject_control.
